@@ -67,6 +67,7 @@ static void do_transform(Case &c, Draw &o, hwloc_topology_t t) {
     if (keep.size() < 2) { CHECK(c, r == -1 && errno == EINVAL, "transform_remove_null", "fewer than 2 objects left: ret %d errno %d", r, errno); CHECK(c, d->nbobjs == (unsigned)nb, "transform_remove_null", "nbobjs changed on failure"); for (int i = 0; i < nb * nb; i++) CHECK(c, d->values[i] == v[i], "transform_remove_null", "values changed on failure"); }
     else { CHECK(c, r == 0, "transform_remove_null", "ret %d", r); CHECK(c, d->nbobjs == keep.size(), "transform_remove_null", "nbobjs %u, expected %zu", d->nbobjs, keep.size());
       bool het = false; for (size_t a = 0; a < keep.size(); a++) { CHECK(c, d->objs[a] == objs[keep[a]], "transform_remove_null", "object %zu is not the %d-th original one", a, keep[a]); if (objs[keep[a]]->type != objs[keep[0]]->type) het = true; for (size_t b = 0; b < keep.size(); b++) CHECK(c, d->values[a * keep.size() + b] == v[keep[a] * nb + keep[b]], "transform_remove_null", "value (%zu,%zu) is not the original (%d,%d)", a, b, keep[a], keep[b]); }
+      if (keep.size() < (size_t)nb)   /* the bit is recomputed only when something was removed; otherwise the kind stays the one fixed at commit time (pitfall 9.18) */
       CHECK(c, !!(d->kind & HWLOC_DISTANCES_KIND_HETEROGENEOUS_TYPES) == het, "transform_remove_null", "HETEROGENEOUS_TYPES bit %d, object types differ %d", !!(d->kind & HWLOC_DISTANCES_KIND_HETEROGENEOUS_TYPES), het); c.cls("transform:remove_null"); }
   } else if (tr == 1) {
     errno = 0; int r = hwloc_distances_transform(t, d, HWLOC_DISTANCES_TRANSFORM_LINKS, NULL, 0);
@@ -156,7 +157,11 @@ void h_run(Case &c) {
         CHECK(c, hwloc_distances_release_remove(t, dd[k]) == 0, "remove", "release_remove failed"); model.erase(model.begin() + k); events++; c.descf("\n | release_remove(#%u)", k); fullcheck(c, t, "release_remove", false); }
     } else if (op <= 11) {  // restrict
       hwloc_bitmap_t set = hwloc_bitmap_alloc(); int dens = o.range(3, 9); hwloc_obj_t pu = NULL; while ((pu = hwloc_get_next_obj_by_type(t, HWLOC_OBJ_PU, pu))) if ((int)(o.raw() % 10) < dens) hwloc_bitmap_set(set, pu->os_index);
-      unsigned long fl = o.chance(1, 2) ? HWLOC_RESTRICT_FLAG_REMOVE_CPULESS : 0; c.attempt("restrict " + bstr(set)); int r = hwloc_topology_restrict(t, set, fl); c.descf("\n | restrict(%s, 0x%lx)=%d", bstr(set).c_str(), fl, r); hwloc_bitmap_free(set);
+      unsigned long fl = o.chance(1, 2) ? HWLOC_RESTRICT_FLAG_REMOVE_CPULESS : 0;
+      if (o.chance(1, 3)) {   // by nodeset: the same bookkeeping (cached object pointers of the matrices) has to follow
+        hwloc_bitmap_zero(set); hwloc_obj_t nn = NULL; while ((nn = hwloc_get_next_obj_by_type(t, HWLOC_OBJ_NUMANODE, nn))) if ((int)(o.raw() % 10) < dens) hwloc_bitmap_set(set, nn->os_index); if (hwloc_bitmap_iszero(set)) hwloc_bitmap_set(set, hwloc_get_obj_by_type(t, HWLOC_OBJ_NUMANODE, 0)->os_index);
+        fl = HWLOC_RESTRICT_FLAG_BYNODESET | (o.chance(1, 2) ? HWLOC_RESTRICT_FLAG_REMOVE_MEMLESS : 0); c.cls("restrict:by-nodeset"); }
+      c.attempt("restrict " + bstr(set)); int r = hwloc_topology_restrict(t, set, fl); c.descf("\n | restrict(%s, 0x%lx)=%d", bstr(set).c_str(), fl, r); hwloc_bitmap_free(set);
       if (r == 0) { std::vector<Ent> nm; bool changed = false;
         for (auto &e : model) { std::vector<int> keep; for (size_t i = 0; i < e.objs.size(); i++) if (lookup(t, e.objs[i].first, e.objs[i].second, useos(e.utype))) keep.push_back((int)i); if (keep.size() < e.objs.size()) changed = true; if (keep.size() < 2) continue;
           Ent n = e; n.objs.clear(); n.vals.clear(); for (int i : keep) n.objs.push_back(e.objs[i]); for (int i : keep) for (int j : keep) n.vals.push_back(e.vals[i * e.objs.size() + j]); nm.push_back(n); }
